@@ -96,7 +96,7 @@ def one_case(case):
             python_on_whales.PLAN.update(chunks=chunks, fail_after=fail_i if kind in ("fail", "fail-wr") else None, fail_at_call=(kind == "fail-at-call"),
                                          write_result=(kind != "no-result"), nonce=f"{os.getpid()}", write_before=write_before)
         set_plan()
-        if prior:
+        if prior is True:
             # history: an earlier, successful execution into the same output directory
             python_on_whales.PLAN.update(chunks=[], fail_after=None, fail_at_call=False, write_result=True, nonce="PRIOR", write_before=None)
             pds = cls(d1 / "a.root", output_directory=outdir) if outdir is not None else cls(d1 / "a.root")
@@ -108,6 +108,16 @@ def one_case(case):
         stage = "ctor"
         try:
             ds = cls(files, output_directory=outdir, **kw) if outdir is not None else cls(files, **kw)
+            if prior in ("same-md", "same-nomd"):
+                # history on the SAME dataset object: an earlier successful execution, with or without docker metadata
+                stage = "prior"
+                python_on_whales.PLAN.update(chunks=[], fail_after=None, fail_at_call=False, write_result=True, nonce="PRIOR", write_before=None)
+                pq = ds.MetaData({"metadata_type": "docker", "image": "earlier/image:3"}) if prior == "same-md" else ds
+                pr = pq.Select(f"lambda e: e.{coll}('A').Count()").value()
+                obs["prior_returned"] = [str(x) for x in pr]
+                obs["prior_image"] = python_on_whales.CALLS[-1]["image"] if python_on_whales.CALLS else None
+                python_on_whales.CALLS.clear()
+                set_plan()
             stage = "query"
             q = ds
             md = {"metadata_type": "docker", "image": "meta/image:7"}
@@ -153,6 +163,8 @@ def judge(case, o):
     kind, k, fail_i = beh
     cache = BACKENDS[backend][4]
     bad_files = shape in ("missing-alone", "missing-second", "empty", "two-diff-dir")
+    if len(case) > 7 and case[7] == "same-md" and o.get("prior_image") not in (None, "earlier/image:3"):
+        probs.append(f"the earlier query's docker metadata was not honoured: ran {o.get('prior_image')!r}")
     if o.get("leftover_tempdirs"):
         probs.append(f"temporary working directory left behind: {o['leftover_tempdirs']}")
     if bad_files:
@@ -247,6 +259,10 @@ def main(tier="quick"):
                                 # the same case after an earlier successful execution into the same output directory
                                 if tinit and shape in ("one-path", "two-same-dir") and image_mode == "default" and md_pos in ("none", "middle"):
                                     cases.append((backend, shape, image_mode, md_pos, outdir_mode, beh, tinit, True))
+                                # ... and after an earlier execution on the very same dataset object (with / without docker metadata)
+                                if tinit and shape in ("one-path", "two-same-dir") and md_pos in ("none", "last") and beh in (("ok", 1, None), ("fail", 1, 0)):
+                                    for pm in ("same-md", "same-nomd"):
+                                        cases.append((backend, shape, image_mode, md_pos, outdir_mode, beh, tinit, pm))
     res = par.pmap(run_case, cases, chunksize=8)
     stats = Counter()
     outcomes = set()
